@@ -246,6 +246,9 @@ package object
 //
 // ---- C20: lock discipline of the interpreter-wide symbol tables ------------------------------
 //@ guarded_by object.lock: object.symHashTable, object.strTable
+// the only package-level state that changes after initialisation: the symbol tables (a cache of a pure function of
+// the string - C19 names them as persisting by design) and their lock
+//@ process_state: object.symHashTable, object.strTable, object.lock
 //@ props C20
 //@ func object.readSymHash(str) res, ok
 //@   requires held == 0
